@@ -416,17 +416,39 @@ CLAIMED = {
              "linop_adjoint_args_agree (same array, mode, strides, multi_channel; own shape argument; swapped oshape/ishape; right "
              "conv function) and linop_double_adjoint. Gen/ConvParams.lean (D, the slices for m, n, b and the indices of the channel "
              "check, c_i, c_o in _get_convolve_params): split_mc / split_sc (data_shape = b + (c_i,) + m and filt_shape = (c_o, c_i) + n "
-             "are split into exactly b, m, n, c_i, c_o; ValueError iff the channel counts differ). Tie: translator (a construct outside its subset is a broken obligation) + "
+             "are split into exactly b, m, n, c_i, c_o; ValueError iff the channel counts differ). Deepened (Props/C08Flat.lean): "
+             "the translator also emits the strides default and length check, the guard table of _get_convolve_params (every `raise` "
+             "in source order with its exception class), every reshape target of the three functions (normalisation and the final "
+             "reshape per multi_channel branch) and the shape arguments of their _get_convolve_params calls, and the model consumes "
+             "them (guard_table, strides_spec, getParams_eq and the converse splitShapes_inv / getParams_inv: a call gets past "
+             "_get_convolve_params iff its shapes are b + (c_i,) + m and (c_o, c_i) + n with len(m) = len(n) >= 1, strides None or of "
+             "length D, mode full or an admitted valid size combination). convolve_eq_index / data_adjoint_eq_index / "
+             "filter_adjoint_eq_index: the flat-array functions the driver runs and the correspondence compares with sigpy (numpy "
+             "reshape / zeros / broadcast / slicing contracts, zero-extended reads, flat loops) EQUAL the index-level definitions "
+             "convMCD / dataAdjMCD / filtAdjMCD entry by entry with exactly the advertised / requested shape, for every number of "
+             "axes, batch shape, channel configuration, mode, size order and strides; flat_data_adjoint_identity / "
+             "flat_filter_adjoint_identity: hence <convolve(d,f), y> = <d, adj_d(y,f)> = <f, adj_f(y,d)> for the arrays those very "
+             "functions return. convolve_shape_or_raise / adjoint_shape_or_raise: for ALL argument combinations (ranks, channel "
+             "counts, strides argument, mode string, filter longer than data, dtypes, shape of the output-side array) the functions "
+             "return an array of exactly the computed shape b + (c_o,) + p / the requested data_shape / filt_shape with that many "
+             "elements, or an error - and an array is returned only on an admitted call; convolve_raises_iff / adjoint_raises_iff: the "
+             "calls that raise are exactly the non-admitted ones. The four Linop classes are interpreted "
+             "from their generated descriptions (linopShapes / linopAdjoint / linopApply run by the driver): linop_H_wiring (.H is "
+             "the partner class with the same arguments and swapped shapes, for every mode / strides / multi_channel), "
+             "linop_apply_wiring (_apply is the right conv function with the stored arguments), linop_data_pairing / "
+             "linop_filter_pairing (<A x, y> = <x, A.H y> for ConvolveData and ConvolveFilter through that wiring). "
+             "Tie: translator (a construct outside its subset is a broken obligation) + "
              "exhaustive exact correspondence (D=1 all lengths 1-5 x strides x modes x channel configs x batch; D=2 grid; D=3,4 "
              "sampled; every layer the theorems are about incl. the D-dim batch/channel layer; functions and all Linop classes incl. "
              ".H of the adjoint classes; outputs or error kinds; mixed real/complex dtypes incl. which combinations raise TypeError).",
         note="Trusted: Lean kernel; translator gen_c08; scipy.signal.convolve/correlate index conventions (incl. the operand swap "
              "in valid mode) and numpy slicing/broadcast/reshape are hand-written contracts checked exactly against scipy; numpy's "
              "casting rules (silent complex->real on item assignment, TypeError on in-place add) are a hand-written contract "
-             "validated by the mixed-dtype correspondence cases. Validated by correspondence only: the strides default / length check of "
-             "_get_convolve_params (checked structurally by the translator, not consumed), the reshapes between the caller's shapes and the normalised "
-             "(B, c) + spatial layout, all error behaviour, and that the flat-array executable model (convolve / adjoint) equals the "
-             "index-level layers of the theorems (both are compared with the real code on the same inputs).",
+             "validated by the mixed-dtype correspondence cases; Linop.__init__'s positive-shape check and Linop.apply's input / "
+             "output shape checks are hand-written contracts. Validated by correspondence only: that numpy / scipy raise where "
+             "the contracts say (reshape element count, broadcast, negative np.zeros extent, scipy's valid-mode size rule) - the "
+             "theorems show these never fire on an admitted call; the exception class of rank mismatches (the model only says "
+             "`raises`); zero-size arrays and non-positive strides are outside the model's domain (`err domain`, never requested).",
         technique="Lean 4 proof over translator-generated formulas/branches/loop wiring/dtype flags/Linop argument tables + exhaustive exact differential correspondence",
         design="DESIGN.md §3 C08, §9"),
     "C02": dict(
